@@ -77,7 +77,7 @@ func keys(m map[string]bool) []string {
 func TestC15(t *testing.T) {
 	env, rec := start(t, "C15", "fault_enumeration",
 		"inputs = rapid-generated accepted programs and, derived from each, rejected inputs of every failure stage (missing file, syntax error, no converter interface, bad notation, unknown converter, non-struct operand, "+
-			"literal that makes the generated code unformattable); for each input all 2^4 flag sets x drawn (-out target in {default, other file, absolute, nested existing dir, missing dir, path that is a directory, a name ending in .log (the documented log path is then the output itself), the setup file itself}, "+
+			"literal that makes the generated code unformattable); for each input all 2^4 flag sets x drawn (-out target in {default, other file, absolute, nested existing dir, missing dir, path that is a directory, a name ending in .log (the documented log path is then the output itself), the setup file itself, names whose stem ends in g / o / ., a name without extension, a name with a four-letter extension}, "+
 			"output pre-state in {absent, other content, identical content, broken Go, a longer earlier result}, input spelling). Oracle: whole-tree snapshot diff: changed paths are a subset of {output (only if not -dry and exit 0), log (only with -log)}, nothing deleted. "+
 			"Non-trivial: a run that is dry, failing, or has a pre-existing output; distinct by (input kind, flags, out target, pre-state, spelling, program hash).")
 	defer rec.Done()
@@ -103,7 +103,7 @@ func TestC15(t *testing.T) {
 	}
 	rec.ReplayTier(judgeCase)
 
-	outKinds := []string{"", "", "same-dir", "cwd", "abs", "nested-dir", "missing-dir", "is-dir", "log-ext", "is-input"}
+	outKinds := []string{"", "", "same-dir", "cwd", "abs", "nested-dir", "missing-dir", "is-dir", "log-ext", "is-input", "odd-stem-g", "odd-stem-o", "odd-stem-dot", "no-ext", "long-ext"}
 	pres := []string{"absent", "other", "identical", "stale-broken", "longer"}
 	rapidRun(t, env, "inputs", env.Pick(64, 600), func(rt *rapid.T) {
 		p := genSmallProg(rt)
